@@ -23,6 +23,8 @@ def generate(rng, tier):
         if r < 0.12:
             c = add_collision(rng, c)
         elif r < 0.2:
+            c = add_case_twin(rng, c)
+        elif r < 0.28:
             c = c[:4] + [c[4] + [modent(path('e%d' % i, 'empty.x' if rng.random() < 0.5 else 'empty'), module())]] + c[5:]
         out.append(c)
     out += hyphen_cases(rng, max(3, n // 60))
@@ -39,6 +41,30 @@ def hyphen_cases(rng, n):
         rng.shuffle(ents)
         out.append(case('hyphen%d' % i, rng.choice([4, 8]), ents))
     return out
+
+def add_case_twin(rng, c):
+    """adds to one module an item whose name differs from an existing item's only by letter case (`T3` / `t3`): two distinct
+    items, both emitted, in an order that is a function of the input alone"""
+    mods = [(p, nd) for p, nd in all_nodes(c) if tag(nd) == 'm' and nd[5][1:]]
+    rng.shuffle(mods)
+    for p, m in mods:
+        defs = m[5][1:]
+        taken = set(d[2] for d in defs)
+        cands = [d[2] for d in defs if d[2].swapcase() not in taken and d[2].swapcase() != d[2]]
+        if not cands: continue
+        nm = rng.choice(cands)
+        tw = nm.lower() if nm.lower() != nm and nm.lower() not in taken and rng.random() < 0.5 else nm.swapcase()
+        extra = (type_def(True, tw, [], [field(True, 'tw', ty_id('u32'))]) if rng.random() < 0.6
+                 else enum_def(True, tw, ty_id('u8'), [], [enum_stmt('A', None, []), enum_stmt('B', None, [])]))
+        pos = rng.randrange(len(defs) + 1)
+        m2 = list(m); m2[5] = [m[5][0]] + defs[:pos] + [extra] + defs[pos:]
+        c2 = replace_at(c, p, m2)
+        c2[1] += '-twin'
+        me = c2[4][p[1]]
+        if tag(me) == 'module':
+            c2[3] = c2[3] + [path(*(list(me[1][1:]) + [tw]))]
+        return c2
+    return c
 
 def add_collision(rng, c):
     mods = [(p, nd) for p, nd in all_nodes(c) if tag(nd) == 'm']
